@@ -170,7 +170,9 @@ def to_coq(e, names):
             raise TranslateError('unknown function %r' % e[1])
         return '(%s %s)' % (FUNS[f], ' '.join(to_coq(a, names) for a in e[2]))
     if k == 'method':
-        # only  <e>.checked_div(<d>).unwrap_or(0)
+        if e[1] in ('max', 'min') and len(e[3]) == 1:          # usize::max / usize::min
+            return '(N.%s %s %s)' % (e[1], to_coq(e[2], names), to_coq(e[3][0], names))
+        # otherwise only  <e>.checked_div(<d>).unwrap_or(0)
         if e[1] == 'unwrap_or' and e[2][0] == 'method' and e[2][1] == 'checked_div' and e[3] == [('num', 0)]:
             num, den = to_coq(e[2][2], names), to_coq(e[2][3][0], names)
             return '(if %s =? 0 then 0 else %s / %s)' % (den, num, den)
@@ -202,6 +204,9 @@ def to_py(e, env):
         a = [to_py(x, env) for x in e[2]]
         return env['__fun__'][base_name(e[1])](*a)
     if k == 'method':
+        if e[1] in ('max', 'min') and len(e[3]) == 1:
+            a, b = to_py(e[2], env), to_py(e[3][0], env)
+            return max(a, b) if e[1] == 'max' else min(a, b)
         if e[1] == 'unwrap_or' and e[2][0] == 'method' and e[2][1] == 'checked_div':
             d = to_py(e[2][3][0], env)
             return to_py(e[2][2], env) // d if d else 0
@@ -425,6 +430,80 @@ def generate():
         raise TranslateError('%s: LAST_FIELD_OFFSET no longer starts from fold_size!(0; all but the last field)' % R)
     emit('g_struct_LAST_FIELD_OFFSET', ['fold_size_prefix', 'last_ALIGN'], v.replace('::flatty::utils::iter::fold_size!(0; #type_list)', 'fold_size_prefix'),
          {'fold_size_prefix': 'fold_size_prefix', '#last_ty::ALIGN': 'last_ALIGN'}, R + ': LAST_FIELD_OFFSET (fold_size_prefix = fold_size!(0; all but the last field))')
+    out.append('')
+
+    # ---- io: capacity of the buffers, and the window arithmetic of common/io.rs Buffer
+    for rel, nm in (('io/src/blocking/recv.rs', 'g_io_capacity_recv'), ('io/src/blocking/send.rs', 'g_io_capacity_send'),
+                    ('io/src/async_/recv.rs', 'g_io_capacity_arecv'), ('io/src/async_/send.rs', 'g_io_capacity_asend')):
+        emit(nm, ['MIN_SIZE', 'max_msg_len'], find(rel, r'Self::new\(IoBuffer::new\(pipe, (.*?), M::ALIGN\)\)', 'capacity of the IoBuffer'),
+             {'max_msg_len': 'max_msg_len', 'M::MIN_SIZE': 'MIN_SIZE'}, rel + ': io(pipe, max_msg_len): capacity of the buffer')
+    R = 'io/src/common/io.rs'
+    blk = impl_block(R, r'impl Buffer \{', 'impl Buffer')
+    wn = {'self.window.start': 'w_start', 'self.window.end': 'w_end', 'self.capacity()': 'cap', 'count': 'count'}
+
+    def wexpr(src_):
+        for k_, v_ in (('self.window.start', 'w_start'), ('self.window.end', 'w_end'), ('self.capacity()', 'cap'),
+                       ('self.preceding_len()', '(g_buf_preceding_len cap w_start w_end)'), ('self.vacant_len()', '(g_buf_vacant_len cap w_start w_end)')):
+            src_ = src_.replace(k_, {'self.window.start': 'w_start', 'self.window.end': 'w_end', 'self.capacity()': 'cap'}.get(k_, k_))
+        return src_
+    W3 = ['cap', 'w_start', 'w_end']
+    wnames = {'w_start': 'w_start', 'w_end': 'w_end', 'cap': 'cap', 'count': 'count'}
+    for meth in ('preceding_len', 'occupied_len', 'vacant_len'):
+        body = in_block(blk, r'fn %s\(&self\) -> usize \{(.*?)\}' % meth, 'Buffer::' + meth)
+        emit('g_buf_' + meth, W3, wexpr(body), wnames, R + ': Buffer::' + meth)
+
+    def stmts(meth, params):
+        """the body of a window-updating method as a function (start, end) -> option (start, end); None = assert! failed"""
+        body = in_block(blk, r'fn %s\(&mut self%s\) \{(.*?)\n    \}' % (meth, ''.join(', %s: usize' % p_ for p_ in params)), 'Buffer::' + meth)
+        lines = []
+        rest = body.strip()
+        copy = False
+        # statements are split at ';' and at the braces of the one `if` form understood
+        toks = [x.strip() for x in re.split(r';', rest) if x.strip()]
+        code = 'Some (w_start, w_end)'
+        # build from the last statement backwards
+        def compile_(ts):
+            if not ts:
+                return 'Some (w_start, w_end)'
+            t = ts[0]
+            m = re.match(r'^self\.window\.(start|end) \+= (.*)$', t)
+            if m:
+                v = 'w_' + m.group(1)
+                return '(let %s := %s + %s in %s)' % (v, v, to_coq(parse_expr(wexpr(m.group(2))), wnames), compile_(ts[1:]))
+            m = re.match(r'^self\.window = (.*?)\.\.(.*)$', t)
+            if m:
+                a = to_coq(parse_expr(wexpr(m.group(1).strip(' ()'))), wnames)
+                b = to_coq(parse_expr(wexpr(m.group(2).strip())), wnames) if not m.group(2).strip().startswith('(') else \
+                    to_coq(parse_expr(wexpr(m.group(2).strip())), wnames)
+                return '(let w_new := (%s, %s) in let w_start := fst w_new in let w_end := snd w_new in %s)' % (a, b, compile_(ts[1:]))
+            m = re.match(r'^assert!\((.*?) <= (.*?)\)$', t)
+            if m:
+                return '(if %s <=? %s then %s else None)' % (to_coq(parse_expr(wexpr(m.group(1))), wnames),
+                                                             to_coq(parse_expr(wexpr(m.group(2))), wnames), compile_(ts[1:]))
+            m = re.match(r'^if self\.window\.is_empty\(\) \{ (self\.window = .*)$', t)
+            if m:
+                # `if self.window.is_empty() { self.window = A..B; }` — Range::is_empty is !(start < end)
+                inner = compile_([m.group(1)] + [x for x in ts[1:]])
+                after = [x for x in ts[1:]]
+                if after and after[0].startswith('}'):
+                    after = [after[0][1:].strip()] + after[1:] if after[0][1:].strip() else after[1:]
+                setw = compile_([m.group(1)] + after)
+                return '(if w_start <? w_end then %s else %s)' % (compile_(after), setw)
+            if t == 'self.data.copy_within(self.window.clone(), 0)':
+                return compile_(ts[1:])      # the copy itself: see g_buf_make_contiguous_copies_window_to
+            if t == '}':
+                return compile_(ts[1:])
+            raise TranslateError('%s: statement not understood in Buffer::%s: %r' % (R, meth, t))
+        return compile_(toks)
+    for meth, params in (('clear', []), ('skip', ['count']), ('advance', ['count']), ('make_contiguous', [])):
+        term = stmts(meth, params)
+        out.append('(* %s: Buffer::%s — the window after the call; None: an assert! fails *)' % (R, meth))
+        out.append('Definition g_buf_%s %s: option (N * N) := %s.' % (meth, ''.join('(%s : N) ' % p_ for p_ in W3 + params), term))
+    mc = in_block(blk, r'fn make_contiguous\(&mut self\) \{(.*?)\n    \}', 'Buffer::make_contiguous')
+    if 'self.data.copy_within(self.window.clone(), 0);' not in mc:
+        raise TranslateError('%s: Buffer::make_contiguous no longer copies the window to the start of the buffer' % R)
+    out.append('(* %s: Buffer::make_contiguous copies exactly the window, to this position *)' % R)
+    out.append('Definition g_buf_make_contiguous_copies_window_to : N := 0.')
     return '\n'.join(out) + '\n', items
 
 
